@@ -1475,14 +1475,25 @@ class Interp:
         return tuple(sig)
 
     def run_loop(self, body, fid, head, blocks, entry: State):
-        """fixpoint over a loop with trace partitioning at the head (one invariant per flag signature)"""
+        """fixpoint over a loop with trace partitioning at the head (one invariant per flag signature), widening
+        with thresholds, then one narrowing (descending) step that is kept only if it is still a post-fixpoint"""
         MAXP = 48
         self.prune_dead(body, fid, entry, head)
-        parts = {self.loop_sig(entry, fid): entry}
-        dirty = list(parts)
+        esig = self.loop_sig(entry, fid)
+        parts = {esig: entry}
+        dirty = [esig]
         results = {}
+        backs_of = {}
         passes = {}
         total = 0
+        widened = False
+
+        def route(b):
+            bs = self.loop_sig(b, fid)
+            if bs not in parts and len(parts) >= MAXP:
+                bs = next(iter(parts))      # too many partitions: fold into the first one
+            return bs
+
         while dirty:
             sg = dirty.pop(0)
             inv = parts[sg]
@@ -1494,9 +1505,9 @@ class Interp:
             results[sg] = (rets, exits)
             for b in backs:
                 self.prune_dead(body, fid, b, head)
-                bs = self.loop_sig(b, fid)
-                if bs not in parts and len(parts) >= MAXP:
-                    bs = next(iter(parts))      # too many partitions: fold into the first one
+            backs_of[sg] = backs
+            for b in backs:
+                bs = route(b)
                 if bs not in parts:
                     parts[bs] = b
                     if bs not in dirty:
@@ -1506,9 +1517,45 @@ class Interp:
                 widen = None if k < WIDEN_AFTER else (1 if k < WIDEN_AFTER + 3 else 2)
                 j, ch = self.sjoin(parts[bs], b, widen)
                 if ch:
+                    if widen:
+                        widened = True
                     parts[bs] = j
                     if bs not in dirty:
                         dirty.append(bs)
+        if widened:
+            # narrowing: recompute every invariant as the plain join of what flows into it, then re-check
+            cand = {}
+            incoming = {esig: [entry]}
+            for sg, backs in backs_of.items():
+                for b in backs:
+                    incoming.setdefault(route(b), []).append(b)
+            try:
+                for sg, sts in incoming.items():
+                    j = sts[0]
+                    for s2 in sts[1:]:
+                        j, _ = self.sjoin(j, s2, None)
+                    cand[sg] = j
+                if set(cand) == set(parts):
+                    res2, ok = {}, True
+                    for sg, inv in cand.items():
+                        rets, backs, exits = self.explore(body, fid, [(inv.copy(), head, True)], (head, blocks))
+                        res2[sg] = (rets, exits)
+                        for b in backs:
+                            self.prune_dead(body, fid, b, head)
+                            bs = route(b)
+                            if bs not in cand:
+                                ok = False
+                                break
+                            _, ch = self.sjoin(cand[bs], b, None)
+                            if ch:
+                                ok = False
+                                break
+                        if not ok:
+                            break
+                    if ok:
+                        results = res2
+            except (AnalysisIncomplete, Infeasible):
+                pass
         rets, exits = [], []
         for r, e in results.values():
             rets.extend(r)
